@@ -756,3 +756,53 @@ func (c *Ctx) ruleInitFlagScope(rule string) {
 		R.Unk(rule, fi.Key, P.Pos(fi.Decl), "no test of the UnmarshalInitialized flag found")
 	}
 }
+
+// R-NESTED-MERGE: a non-merging Unmarshal resets the destination once, at the
+// top; everything decoded below merges (a second occurrence of a singular
+// submessage field is merged into the first). The reflection decoder recurses
+// through UnmarshalOptions.unmarshal, so the function must force Merge for the
+// recursion after honouring the caller's choice: `o.Merge = true` dominates
+// both decode calls.
+func (c *Ctx) ruleNestedMerge(rule string) {
+	R, P := c.R, c.P
+	R.Rule(rule, "in proto.UnmarshalOptions.unmarshal the assignment `o.Merge = true` dominates the fast-path call methods.Unmarshal and the reflection decode unmarshalMessageSlow (nested messages are always merged; only the top-level destination is reset)", 1)
+	fi := c.need(rule, "proto.UnmarshalOptions.unmarshal")
+	if fi == nil {
+		return
+	}
+	info := fi.Info()
+	g := fi.CFG()
+	n := 0
+	walk(fi.Decl.Body, func(x ast.Node) bool {
+		call, ok := x.(*ast.CallExpr)
+		if !ok {
+			return true
+		}
+		k := calleeKey(info, call)
+		isSlow := k == "proto.UnmarshalOptions.unmarshalMessageSlow"
+		isFast := false
+		if se, ok := call.Fun.(*ast.SelectorExpr); ok && se.Sel.Name == "Unmarshal" && strings.HasSuffix(exprStr(se.X), "methods") {
+			isFast = true
+		}
+		if !isSlow && !isFast {
+			return true
+		}
+		n++
+		dom := g.DominatedByNode(call, func(nd ast.Node) bool {
+			as, ok := nd.(*ast.AssignStmt)
+			if !ok || len(as.Lhs) != 1 || len(as.Rhs) != 1 {
+				return false
+			}
+			if _, f, ok := fieldSel(info, as.Lhs[0]); !ok || f != "Merge" {
+				return false
+			}
+			v, isC := constBool(info, as.Rhs[0])
+			return isC && v
+		})
+		R.Check(dom, rule, fi.Key+" decode#"+itoa(n), P.Pos(call), "runs with Merge forced to true", "the decode runs with the caller's Merge option: with Merge false the recursive unmarshal of a nested message resets it, so a second occurrence of a singular submessage field replaces the first instead of being merged into it (reflection path only: it then differs from the fast path)")
+		return true
+	})
+	if n == 0 {
+		R.Unk(rule, fi.Key, P.Pos(fi.Decl), "decode calls not found")
+	}
+}
